@@ -51,7 +51,7 @@ CLAIMS["C11"] = dict(
          "build) error codes consumed before a result is produced (no call site resolves to a function that ends with an unread, possibly set "
          "local error code; a valueless return on the error path has emptied every result-typed output parameter) and every DoError paired with an "
          "error-code update; every result container an Execute overload receives is emptied on every path (the NoClip and error returns included). Genuine defects found are "
-         "listed in known_findings.json (D8-D10) or repaired by fix: commits (D7, D13).",
+         "listed in known_findings.json (D8-D10) or repaired by fix: commits (D7, D13). The rectangle ScalePaths tests against the coordinate range is always GetBounds of the whole input.",
     note="Does not decide that Execute returns true for all geometry (AddLocalMaxPoly mismatch reachability). Parameters are recognised by name "
          "(precision, decimal_prec, decimalPlaces) and int type.",
     technique="static analysis: structured-CFG path rules + AST interpretation of validation conditions (Engler-style error discipline)",
@@ -97,7 +97,7 @@ CLAIMS["C17"] = dict(
          "paths parameter, not path by path), none of another meaning, "
          "none dropped; (SCALE) dimensional analysis of the D exports; (Z-CODEC, USINGZ) every store of Z into a slot and every load from it is a "
          "bit copy (Reinterpret or same type) so that writers and readers agree; (UNCONDITIONAL) whether a geometry input is handed to the native object depends on that input only; (CURSOR) every call of a writer advances the caller's write position "
-         "(cursor by reference, or returned position stored back). A layout mismatch is simultaneously a round-trip failure and an out-of-bounds access.",
+         "(cursor by reference, or returned position stored back). A layout mismatch is simultaneously a round-trip failure and an out-of-bounds access. The exported twins (RectClip / RectClipLines, MinkowskiSum / MinkowskiDiff) call the native operation of their own name (FORWARD.native).",
     note="Does not decide that the native call returns the right result. Shapes outside the supported loop nest make the run analysis-broken (exit 2).",
     technique="static analysis: symbolic element-count shapes of marshalling code + parameter-flow forwarding table + dimensional analysis",
     design="§3 E4/E8, §4 C17", engine="E4")
@@ -108,7 +108,7 @@ CLAIMS["C16"] = dict(
          "is as documented; double->int64 coordinate conversion happens only through std::round; no wrapper hands its own double argument back "
          "unrounded (one known finding, D17); every precision parameter is used for more than validation and no ClipperD is default-constructed "
          "where a precision was given; the D output builders equal their 64-bit siblings "
-         "modulo de-scaling (sibling identity, engine E6).",
+         "modulo de-scaling (sibling identity, engine E6). ScalePath / ScalePaths return the element-wise image of their input on every path that has not just reported an error (SCALE.total).",
     note="Bit-exact equality of results (floating-point evaluation order) and node-for-node tree shape beyond builder identity are NOT decided.",
     technique="static analysis: unit/dimension inference over the AST + sibling-identity alignment",
     design="§3 E8/E6, §4 C16", engine="E8")
@@ -136,7 +136,7 @@ CLAIMS["C08"] = dict(
          "lines (engine E14) and answer 'touching' exactly when it lies strictly between the other segment's ends, whichever way the side runs "
          "(48 cells); GetIntersection reports the side the segment meets first for p in every side region and every possible (entry, exit) pair "
          "(76 cells); no point classification compares a coordinate of one axis with a bound of the other; the location RectClip64's scan starts with is the truth about "
-         "the last vertex (729 scenarios of the prologue).",
+         "the last vertex (729 scenarios of the prologue). When a path ends outside, the corner steps added to close it are those of one walk from the end region through start_locs_ to the first-crossing region (CORNER.chain, 1360 cases).",
     note="The location state machine, corner insertion and TidyEdges (the behaviour for crossing paths) are NOT decided.",
     technique="static analysis: abstract interpretation over orderings + loop-carried-state dataflow",
     design="§3 E3/E2, §4 C08", engine="E3")
@@ -230,7 +230,7 @@ CLAIMS["C10"] = dict(
          "test it strictly; sort comparators are strict weak orders; edges handed to AddOutPt & co. carry output (HOT.guard); no "
          "pointer into RectClip's node store survives its reset; and, for the allocation-failure clause, every output-vertex ring is link-consistent "
          "at every statement that can throw and at every exit of the 14 functions that re-link rings (symbolic heap, all paths), and only "
-         "provably orphaned vertices are deleted - which is what ~ClipperBase needs to free the rings after a std::bad_alloc.",
+         "provably orphaned vertices are deleted - which is what ~ClipperBase needs to free the rings after a std::bad_alloc. Every new kept in a local pointer is handed on, deleted or known null on every path to an exit (ALLOC.owned).",
     note="Termination, bounds of computed indices, lifetime of Active nodes, disjointness of the rings of different OutRecs, overflow of sums "
          "are NOT decided. LINK assumes distinct access paths denote distinct vertices.",
     technique="static analysis: size-fact dataflow with preconditions + IR call-graph reachability + type lint + comparator axioms + symbolic-heap "
@@ -244,7 +244,7 @@ CLAIMS["C20"] = dict(
          "distance/epsilon comparison of SimplifyPath and RDP draws the line at 'removable iff distance <= epsilon'; GetBounds' min/max update table and sentinels (a maximum starts at lowest(), not at the smallest positive value); every argument bound to an epsilon / squared-epsilon parameter has that degree; RDP examines each sub-span exactly when it has an interior vertex; Ellipse and TranslatePath "
          "satisfy their defining formulas; the trailing-duplicate removal of a closed path (StripDuplicates, StripNearEqual) is a loop whose condition re-tests the new last point; "
          "PerpendicDistFromLineSqrd, DistanceSqr and IsCollinear are their defining polynomials (engine E14). "
-         "The one flag-clearing site (RDP) is a genuine defect recorded as a known finding (D11).",
+         "The one flag-clearing site (RDP) is a genuine defect recorded as a known finding (D11). No product of coordinate differences is formed in int64 (INT64.product: Distance, Length, Area).",
     note="Epsilon guarantees, area preservation, idempotence and the exact corner set are NOT decided.",
     technique="static analysis: AST rules on result construction and flag assignments",
     design="§4 C20", engine="E11")
